@@ -478,6 +478,31 @@ pub fn write_stall_and_exit(kind: &str) -> ! {
     unsafe { libc::_exit(3) }
 }
 
+/// A worker that dies by SIGSEGV / SIGBUS / SIGABRT inside a monitored call (stack exhaustion by unbounded recursion is
+/// the realistic way there: Rust's own guard-page handler reports it and aborts) leaves a record of the case it was in,
+/// like a hang does. Best effort: the handler runs on the alternate stack std installs for its threads and is not
+/// strictly async-signal-safe; if it cannot write, the parent sees a worker that died without a report, which is a
+/// harness error and never a verdict. Only armed while a case asks for it (CRASH_ATTRIBUTION), so that a crash of
+/// the harness itself is not blamed on the code under test.
+pub static CRASH_ATTRIBUTION: AtomicBool = AtomicBool::new(false);
+extern "C" fn on_fatal_signal(_sig: libc::c_int) {
+    if CRASH_ATTRIBUTION.load(Ordering::SeqCst) {
+        write_stall_and_exit("crash");
+    }
+    unsafe { libc::_exit(4) }
+}
+pub fn install_crash_handler() {
+    unsafe {
+        for sig in [libc::SIGABRT, libc::SIGBUS] {
+            let mut sa: libc::sigaction = std::mem::zeroed();
+            sa.sa_sigaction = on_fatal_signal as usize;
+            sa.sa_flags = libc::SA_ONSTACK;
+            libc::sigemptyset(&mut sa.sa_mask);
+            libc::sigaction(sig, &sa, std::ptr::null_mut());
+        }
+    }
+}
+
 /// cpu_limit: CPU seconds one case may burn; block_limit: wall seconds with (almost) no CPU use
 pub fn start_watchdog(stall_out: String, cpu_limit: f64, block_limit: f64) {
     *STALL_OUT.lock().unwrap() = Some(stall_out);
